@@ -246,6 +246,15 @@ def run_apply(case):
 RUN = {"read_one": run_read_one, "eeprom": run_eeprom, "sm": run_sm, "pdos": run_pdos, "apply": run_apply}
 
 
+def run_case(case):
+    """the runners map the exceptions the anchored code is expected to raise; anything else that
+    escapes (the device model never makes the unchanged code raise) becomes an observable outcome"""
+    try:
+        return RUN[case["op"]](case)
+    except Exception as e:
+        return {"exc": f"{exc_name(e)}: {str(e)[:120]}", "out": "raised " + exc_name(e)}
+
+
 # ---------------------------------------------------------------- oracles (from the generating structure)
 
 def le(b):
@@ -377,6 +386,9 @@ def oracle_apply(ctx, case, r):
 
 def judge(ctx, case, r):
     op = case["op"]
+    if "exc" in r:
+        ctx.require(False, f"{op}: the real code raised {r['exc']}", case, r["out"], "raised")
+        return
     if op == "read_one":
         oracle_read_one(ctx, case, r)
     elif op == "eeprom":
@@ -438,14 +450,29 @@ def script_for(rng, image):
     return gen_script(rng, rng.choice([0, 10, len(image) // 2 + 20]))
 
 
-def gen_eeprom(rng):
+def gen_eeprom(rng, heavy=False):
     hdr = rbytes(rng, 128)
     cats = gen_cats(rng)
     tail = rbytes(rng, rng.choice([0, 0, 1, 2, 3, 6, 12]))
     img = build_image(hdr, cats, tail)
     case = {"op": "eeprom", "mode8": rng.random() < 0.5, "struct": {"hdr": hdr.hex(), "cats": cats, "tail": tail.hex()}}
-    if rng.random() < 0.12:          # malformed: cut anywhere behind the fixed part (marker lost, payload truncated)
-        img = img[:rng.randrange(128, len(img))]
+    if heavy or rng.random() < 0.12:
+        # malformed: the image ends early.  Cutting inside a header leaves a word count of 0xff.. (the device
+        # pads with 0xff): ~16000 reads of padding, kept for a few `heavy` cases only.
+        offs, o = [], 128
+        for ty, payload in cats:
+            offs.append((o, len(payload) // 2))
+            o += 4 + len(payload) // 2
+        with_payload = [(a, n) for a, n in offs if n]
+        if heavy:
+            a = rng.choice(offs)[0] if offs else o
+            cut = a + rng.randrange(1, 4)
+        elif with_payload and rng.random() < 0.6:
+            a, n = rng.choice(with_payload)
+            cut = a + 4 + rng.randrange(0, n)
+        else:
+            cut = o if rng.random() < 0.7 or not offs else rng.choice(offs)[0]      # marker (and more) lost
+        img = img[:cut]
         del case["struct"]
     case["image"] = img.hex()
     case["script"] = script_for(rng, img)
@@ -703,6 +730,8 @@ def nontrivial(case):
 
 def kind(case, r):
     op = case["op"]
+    if "exc" in r:
+        return op + ":raised"
     if op == "read_one":
         return "read_one:" + ("8" if case["mode8"] else "4")
     if op == "eeprom":
@@ -722,14 +751,15 @@ def run(ctx):
     logging.disable(logging.CRITICAL)
     rng = ctx.rng
     cases = fixed_cases()
-    cases += [gen_read_one(rng) for _ in range(ctx.n(1500, 30000))]
-    cases += [gen_eeprom(rng) for _ in range(ctx.n(500, 10000))]
-    cases += [gen_sm(rng) for _ in range(ctx.n(1500, 30000))]
-    cases += [gen_pdos(rng) for _ in range(ctx.n(2000, 40000))]
-    cases += [gen_apply(rng) for _ in range(ctx.n(400, 8000))]
+    cases += [gen_read_one(rng) for _ in range(ctx.n(3000, 30000))]
+    cases += [gen_eeprom(rng) for _ in range(ctx.n(1500, 8000))]
+    cases += [gen_eeprom(rng, heavy=True) for _ in range(ctx.n(0, 2))]
+    cases += [gen_sm(rng) for _ in range(ctx.n(3000, 30000))]
+    cases += [gen_pdos(rng) for _ in range(ctx.n(4000, 40000))]
+    cases += [gen_apply(rng) for _ in range(ctx.n(1000, 10000))]
     impl = []
     for c in cases:
-        r = RUN[c["op"]](c)
+        r = run_case(c)
         impl.append(r["out"])
         ctx.case(c, nontrivial=nontrivial(c), kind=kind(c, r))
         judge(ctx, c, r)
@@ -742,7 +772,7 @@ def run(ctx):
 
 def replay(ctx, case):
     logging.disable(logging.CRITICAL)
-    r = RUN[case["op"]](case)
+    r = run_case(case)
     judge(ctx, case, r)
     return {"out": r["out"]}
 
